@@ -516,6 +516,8 @@ fn generate_root_definitions(
         }
     }
 
+    context.current_namespace = None;
+
     Ok(())
 }
 
@@ -541,6 +543,9 @@ fn generate_root_definition(
                 .namespace
         }
     };
+
+    // Names are written for use inside that namespace
+    context.current_namespace = namespace;
 
     let defs = match decl {
         ir::RootDefinition::Struct(id) => {
@@ -1634,14 +1639,14 @@ fn generate_type_impl(
         ir::TypeLayer::Struct(id) => {
             let scoped_name = context.get_struct_name_full(id)?;
             ast::Type::from_layout(ast::TypeLayout(
-                scoped_name_to_identifier(scoped_name),
+                scoped_name_to_identifier(scoped_name, context),
                 Default::default(),
             ))
         }
         ir::TypeLayer::Enum(id) => {
             let scoped_name = context.get_enum_name_full(id)?;
             ast::Type::from_layout(ast::TypeLayout(
-                scoped_name_to_identifier(scoped_name),
+                scoped_name_to_identifier(scoped_name, context),
                 Default::default(),
             ))
         }
@@ -2015,14 +2020,14 @@ fn generate_literal(
                 Some(found_value_id) => {
                     // Output with the declared name of the enum value
                     let scoped_name = context.get_enum_value_name_full(*found_value_id)?;
-                    let identifier = scoped_name_to_identifier(scoped_name);
+                    let identifier = scoped_name_to_identifier(scoped_name, context);
                     return Ok(ast::Expression::Identifier(identifier));
                 }
                 None => {
                     // Output as a raw value casted to the enum
                     let enum_type = {
                         let scoped_name = context.get_enum_name_full(id)?;
-                        let identifier = scoped_name_to_identifier(scoped_name);
+                        let identifier = scoped_name_to_identifier(scoped_name, context);
                         ast::TypeId::from(identifier)
                     };
 
@@ -2353,6 +2358,7 @@ fn generate_expression(
                 // Constants stay inside their namespace so need the full name
                 ast::Expression::Identifier(scoped_name_to_identifier(
                     context.get_global_name_full(*v)?,
+                    context,
                 ))
             } else {
                 // Other globals are passed as parameters which have no namespace
@@ -2366,6 +2372,7 @@ fn generate_expression(
         }
         ir::Expression::EnumValue(id) => ast::Expression::Identifier(scoped_name_to_identifier(
             context.get_enum_value_name_full(*id)?,
+            context,
         )),
         ir::Expression::TernaryConditional(expr_cond, expr_true, expr_false) => {
             let expr_cond = generate_expression(expr_cond, context)?;
@@ -2847,7 +2854,7 @@ fn generate_user_call(
     let (object, arguments) = match ct {
         ir::CallType::FreeFunction => {
             let scoped_name = context.get_function_name_full(id)?;
-            let object = ast::Expression::Identifier(scoped_name_to_identifier(scoped_name));
+            let object = ast::Expression::Identifier(scoped_name_to_identifier(scoped_name, context));
             (object, exprs.as_slice())
         }
         ir::CallType::MethodExternal => {
@@ -4697,12 +4704,14 @@ fn generate_struct(
         }));
     }
 
+    context.current_struct = Some(decl.id);
     for method in &decl.methods {
         let defs = generate_function(*method, false, context)?;
         for def in defs {
             members.push(ast::StructEntry::Method(def));
         }
     }
+    context.current_struct = None;
 
     let sd = ast::StructDefinition {
         name: Located::none(context.get_struct_name(decl.id)?.to_string()),
@@ -4740,10 +4749,24 @@ fn generate_enum(
 }
 
 /// Construct an ast scoped identifier from a generator scoped name
-fn scoped_name_to_identifier(scoped_name: ScopedName) -> ast::ScopedIdentifier {
+fn scoped_name_to_identifier(
+    scoped_name: ScopedName,
+    context: &GenerateContext,
+) -> ast::ScopedIdentifier {
+    // Technically should be absolute but that generates uglier paths in the common case
+    // It has to be where the first name would find something else in the place we write it
+    let hidden = context.name_map.is_root_name_hidden(
+        context.module,
+        &scoped_name.0[0],
+        context.current_namespace,
+        context.current_struct,
+    );
     ast::ScopedIdentifier {
-        // Technically should be absolute but that generates uglier paths in the common case
-        base: ast::ScopedIdentifierBase::Relative,
+        base: if hidden {
+            ast::ScopedIdentifierBase::Absolute
+        } else {
+            ast::ScopedIdentifierBase::Relative
+        },
         identifiers: scoped_name
             .0
             .into_iter()
@@ -4824,6 +4847,12 @@ pub(crate) struct GenerateContext<'m> {
 
     mesh_layout: Option<MeshOutputLayout>,
     mesh_output_type: Option<ast::Type>,
+
+    /// Namespace that contains the definition we are generating
+    current_namespace: Option<ir::NamespaceId>,
+
+    /// Struct that contains the method we are generating
+    current_struct: Option<ir::StructId>,
 }
 
 /// A function parameter that is added to supply global state
@@ -4875,6 +4904,8 @@ impl<'m> GenerateContext<'m> {
             required_helpers: HashMap::new(),
             mesh_layout,
             mesh_output_type: None,
+            current_namespace: None,
+            current_struct: None,
         }
     }
 
